@@ -22,8 +22,13 @@ def owner_of(f):
         return "C02"
     if f["stage"] in ("lookup", "ids", "init"):
         return "C03"
+    if f["stage"] == "handle":
+        # "independent of how many handles": a handle that reports something else than the file does
+        return "C05" if "links:" in f["detail"].get("gpath", "") or "metadata" in f["detail"].get("gpath", "") else "C02"
     if f["stage"] == "search":
         return "C13"
+    if f["stage"] == "stamps":
+        return "C19"
     if f["stage"] in ("xcopy", "copy_returned") or f["action"] == "Copy":
         return "C20"
     if f["stage"] == "name_still_free":
